@@ -140,6 +140,7 @@ pub fn run_with(path: PathBuf, src: &str, opts: &Opts) -> Outcome {
       ex.push(("intern_after_full".to_string(), keys.len().to_string()));
     }
     ex.push(("scheduled_collections".to_string(), allocator_verif::scheduled_collections().to_string()));
+    ex.push(("layout_mismatches".to_string(), crate::chkalloc::mismatches().to_string()));
     unsafe { std::mem::ManuallyDrop::drop(&mut vm) };
     (res, ex, limit_hit)
   }));
